@@ -116,6 +116,31 @@ def leg_typed_update(ns, res, spec):
             cs = {'leg': 'typed-update', 'front_end': 'pandas', 'query_text': qtext, 'rows': [[repr(v) for v in r] for r in rows]}
             if err is not None or len(got) != len(exp) or any(len(g) != len(e) or not all(same(x, y) for x, y in zip(g, e)) for g, e in zip(got, exp)):
                 res.violation('py:typed-update-assigned-value-lost:pandas', '[py/pandas] %s over %r (dtypes %s) -> %s ; expected %r' % (qtext, rows, [str(t) for t in df.dtypes], err or got, exp), cs)
+            # an all-numeric frame with mixed dtypes (no object column that would keep the cells apart): identifiers beyond 2**53 next to floats
+            ids = [rng.choice([1, 2, 2 ** 53 + 1, 2 ** 53 + 3, 2 ** 62 + 5]) for _ in range(nrows)]
+            ws = [rng.choice([0.5, 2.25, 10.0]) for _ in range(nrows)]
+            ns_ = [rng.choice([3, 4, 7]) for _ in range(nrows)]
+            nrows2 = [[ids[i], ws[i], ns_[i]] for i in range(nrows)]
+            nq, nf = [('update a.w = a.w * 2', lambda r, nu: [r[0], r[1] * 2, r[2]]), ('update a2 = 0.5 where a3 > 3', lambda r, nu: [r[0], 0.5, r[2]] if r[2] > 3 else list(r)),
+                      ('update a.n = a.n + 1 where a.w > 100', lambda r, nu: list(r)), ('update a3 = NU', lambda r, nu: [r[0], r[1], nu])][n % 4]
+            nexp, nu = [], 0
+            for r in nrows2:
+                changed = nf(r, nu + 1)
+                if changed != list(r) or ' where ' not in nq:
+                    nu += 1
+                    changed = nf(r, nu)
+                nexp.append(changed)
+            ndf = pd.DataFrame({'id': pd.Series(ids, dtype='int64'), 'w': pd.Series(ws, dtype='float64'), 'n': pd.Series(ns_, dtype='int64')})
+            err = got = None
+            try:
+                out = ns.rbql.query_pandas_dataframe(nq, ndf, [])
+                got = [[(v.item() if hasattr(v, 'item') else v) for v in r] for r in [list(t) for t in out.itertuples(index=False)]]
+            except Exception as e:
+                err = '%s: %s' % (type(e).__name__, str(e)[:150])
+            res.evaluations += 1
+            res.count('typed_update_runs:pandas-all-numeric')
+            if err is not None or len(got) != len(nexp) or any(len(g) != len(e) or not all(same(x, y) for x, y in zip(g, e)) for g, e in zip(got, nexp)):
+                res.violation('py:typed-update-unassigned-field-changed:pandas', '[py/pandas] %s over the all-numeric frame %r (int64 / float64 / int64) -> %s ; expected %r' % (nq, nrows2, err or got, nexp), dict(cs, query_text=nq, rows=[[repr(v) for v in r] for r in nrows2]))
             # sqlite -> CSV
             conn = sqlite3.connect(':memory:')
             conn.execute('CREATE TABLE t (qty INTEGER, price REAL, flag INTEGER, name TEXT)')
@@ -256,8 +281,8 @@ def run_shard(spec, res):
 def summarize(tier, seed, m):
     shapes = sorted(k[6:] for k in m['counters'] if k.startswith('shape:'))
     return {
-        'rule': 'UPDATE [SET] lists of 1-3 assignments with targets aN / a[N] / a.name / a["name"], swaps and cycles (a1 = a2, a2 = a3, a3 = a1), right-hand sides from the typed vocabulary incl. NU, NR and b-fields, WHERE true / false / partial, INNER and LEFT JOIN with 0 / 1 / 2 partners, ragged tables with the target beyond a short record; systematic sweep over the 16 combinations of {where, join, cycle, beyond}. a typed leg: ten UPDATE shapes (fractional results into an integer column, swaps between int and float columns, NU * 1.5, a number into a bool column, a string into a numeric column and back, None, products beyond 2**32, WHERE on typed cells) over dataframes with int64 / int8 / float64 / float32 / bool / object columns through query_pandas_dataframe and over a sqlite table through query_sqlite_to_csv - every assigned field must hold the right-hand side value; a JS values leg: arrays holding NaN, Infinity, undefined, Date, BigInt, nested arrays and a BOM-led string under plain / filtered / joined / never-matching UPDATEs - every unassigned field and every non-matching record comes out as it went in, the arrays of the caller stay as they were; distinct_nontrivial = distinct (query, tables) that change at least one cell or must fail.',
-        'required': ['js_value_update_runs', 'typed_update_runs:pandas', 'typed_update_runs:sqlite', 'py_cases', 'row_diff_checks', 'rows_with_changes', 'predicted_missing_field_errors', 'js_cases'],
+        'rule': 'UPDATE [SET] lists of 1-3 assignments with targets aN / a[N] / a.name / a["name"], swaps and cycles (a1 = a2, a2 = a3, a3 = a1), right-hand sides from the typed vocabulary incl. NU, NR and b-fields, WHERE true / false / partial, INNER and LEFT JOIN with 0 / 1 / 2 partners, ragged tables with the target beyond a short record; systematic sweep over the 16 combinations of {where, join, cycle, beyond}. a typed leg: ten UPDATE shapes (fractional results into an integer column, swaps between int and float columns, NU * 1.5, a number into a bool column, a string into a numeric column and back, None, products beyond 2**32, WHERE on typed cells) over dataframes with int64 / int8 / float64 / float32 / bool / object columns through query_pandas_dataframe and over a sqlite table through query_sqlite_to_csv and four shapes over an all-numeric frame (int64 identifiers beyond 2**53 next to float64) - every assigned field must hold the right-hand side value, every other field its own; a JS values leg: arrays holding NaN, Infinity, undefined, Date, BigInt, nested arrays and a BOM-led string under plain / filtered / joined / never-matching UPDATEs - every unassigned field and every non-matching record comes out as it went in, the arrays of the caller stay as they were; distinct_nontrivial = distinct (query, tables) that change at least one cell or must fail.',
+        'required': ['js_value_update_runs', 'typed_update_runs:pandas-all-numeric', 'typed_update_runs:pandas', 'typed_update_runs:sqlite', 'py_cases', 'row_diff_checks', 'rows_with_changes', 'predicted_missing_field_errors', 'js_cases'],
         'extra': {'shapes_seen': shapes},
         'assumptions': ['rv/model/refsem.py _run_update is the UPDATE semantics of the statement'],
     }
